@@ -8,6 +8,7 @@ package simos
 import (
 	"io"
 	"io/fs"
+	"log"
 	"os"
 	"runtime"
 	"sync"
@@ -206,6 +207,18 @@ func Exit(code int) {
 	}
 	h.Exit(code)
 	runtime.Goexit()
+}
+
+// Fatal / Fatalf replace log.Fatal* in the applications' main packages
+// (log.Fatal calls the real os.Exit, which would end the simulation process).
+func Fatal(v ...interface{}) {
+	log.Print(v...)
+	Exit(1)
+}
+
+func Fatalf(format string, v ...interface{}) {
+	log.Printf(format, v...)
+	Exit(1)
 }
 
 // Stdin replaces os.Stdin in to_nsq; the driver may point it at a generated stream.
